@@ -100,6 +100,33 @@ static bool checkSequence(int b, int e, const std::vector<int> &w, const std::ve
   return true;
 }
 
+// A legalizer that has been used (pushes and bare cost queries), then emptied with clear(), must behave exactly like a new
+// one on the next sequence: same predicted costs, same reported costs, same placement.
+static bool checkReuse(int b, int e, const std::vector<int> &w, const std::vector<int> &t, Rng &rng, CaseResult &r) {
+  int n = (int)w.size();
+  RowLegalizer a(b, e), f(b, e);
+  int k = (int)rng.range(0, n), used = 0;
+  for (int i = 0; i < k; ++i) {  // an earlier life: some of the same cells, in reverse order
+    int j = n - 1 - i;
+    if (used + w[j] > e - b) break;
+    used += w[j];
+    a.push(w[j], t[j]);
+  }
+  int nq = (int)rng.range(0, 3);
+  for (int q = 0; q < nq; ++q) { int j = rng.chance(0.6) ? 0 : (int)rng.range(0, n - 1); if (used + w[j] <= e - b) (void)a.getCost(w[j], t[j]); }
+  a.clear();
+  for (int i = 0; i < n; ++i) {
+    long long ca = a.getCost(w[i], t[i]), cf = f.getCost(w[i], t[i]);
+    if (ca != cf) { r.fail("C12:reused-legalizer-differs-from-a-new-one", "getCost after clear() = " + std::to_string(ca) + ", on a new legalizer " + std::to_string(cf) + " at cell " + std::to_string(i) + " (earlier life: " + std::to_string(k) + " pushes, " + std::to_string(nq) + " bare queries): " + seqStr(b, e, w, t)); return false; }
+    long long pa = a.push(w[i], t[i]), pf = f.push(w[i], t[i]);
+    if (pa != pf) { r.fail("C12:reused-legalizer-differs-from-a-new-one", "push after clear() = " + std::to_string(pa) + ", on a new legalizer " + std::to_string(pf) + " at cell " + std::to_string(i) + ": " + seqStr(b, e, w, t)); return false; }
+    if (ca != pa) { r.fail("C12:prediction-differs-from-push", "after clear(): getCost=" + std::to_string(ca) + " push=" + std::to_string(pa) + " at cell " + std::to_string(i) + ": " + seqStr(b, e, w, t)); return false; }
+  }
+  if (a.getPlacement() != f.getPlacement()) { r.fail("C12:reused-legalizer-differs-from-a-new-one", "placement after clear() differs: " + seqStr(b, e, w, t)); return false; }
+  r.count("reuse_after_clear_checked");
+  return true;
+}
+
 // exhaustive: case = (b, L, first width, first target index); enumerates every continuation up to 4 cells
 static void exhaustiveCase(uint64_t idx, CaseResult &r, int maxL) {
   int tIdx = idx % 14; idx /= 14;
@@ -184,6 +211,7 @@ static void randomCase(Rng &rng, CaseResult &r, bool big) {
     if (k != w.size() && !rng.chance(0.3)) continue;
     if (!checkSequence(b, e, ww, tt, !big && (e - b) <= 300, r, mask)) break;
   }
+  if (r.viol.empty() && rng.chance(0.5)) checkReuse(b, e, w, t, rng, r);
   long long used = 0;
   for (int x : w) used += x;
   r.count("cells", (long long)w.size());
